@@ -92,7 +92,42 @@ func (e *c03Env) genFrameOpts(t *rapid.T, f *c03Flow, reverse bool) c03FrameOpts
 	case 2:
 		o.Cut = rapid.IntRange(1, 110).Draw(t, "cut")
 	}
+	if e.forceTCP != 0 && f.TCP {
+		o.Flags, o.FragOff, o.FragHdr, o.Cut = e.forceTCP, 0, false, 0
+	}
 	return o
+}
+
+// actConnWhileFull: a whole connection attempt while the state table is full - SYN,
+// then one or two further segments of the same connection - on a TCP flow. What the
+// datapath lets through of it must be treated consistently (a direct rule's mark on
+// the SYN and on the segments that follow, or nothing).
+func (e *c03Env) actConnWhileFull(t *rapid.T) {
+	var tcp []*c03Flow
+	for _, f := range e.flows {
+		if f.TCP {
+			tcp = append(tcp, f)
+		}
+	}
+	if len(tcp) == 0 {
+		t.Skip("no TCP flow")
+	}
+	f := tcp[rapid.IntRange(0, len(tcp)-1).Draw(t, "tcp_flow")]
+	was := e.mapFull
+	if !was {
+		e.actMapFull(t)
+	}
+	e.forceTCP = ksTCPSyn
+	e.forwardOne(t, f)
+	for i, n := 0, rapid.IntRange(1, 2).Draw(t, "segments"); i < n; i++ {
+		e.forceTCP = rapid.SampledFrom([]uint8{ksTCPAck, ksTCPAck | 0x08}).Draw(t, "segflags")
+		e.forwardOne(t, f)
+	}
+	e.forceTCP = 0
+	if !was {
+		e.actMapFull(t)
+	}
+	e.class("connection_attempt_while_state_table_full")
 }
 
 func (e *c03Env) goAddrPorts(t *rapid.T, f *c03Flow) (netip.AddrPort, netip.AddrPort) {
@@ -484,6 +519,7 @@ func c03History(t *rapid.T, unit string, aimProc bool) {
 		acts[fmt.Sprintf("clock%d", i)] = e.actClock
 	}
 	acts["dae"] = e.actDaeTakesOver
+	acts["fullconn"] = e.actConnWhileFull
 	acts["env"] = func(t *rapid.T) {
 		switch rapid.IntRange(0, 3).Draw(t, "env") {
 		case 0:
